@@ -23,6 +23,8 @@ def generate(ctx):
     cases = []
     for i in range(n):
         g = cfglib.rand_cfg(ctx.rng, names="plain" if ctx.rng.random() < 0.85 else "adv")
+        if i % 10 == 3:     # variables that already carry the names to_normal_form generates (gaps, several consecutive names taken) + a long body
+            g = cfglib.rand_cfg(ctx.rng, profile="cnfnames")
         if i % 5 == 4:
             cases.append({"op": "generate_epsilon", "g": g})
         else:
